@@ -157,6 +157,9 @@ func c30(c *core.Ctx) {
 
 	rWin := c.Rule("C30.window", "an expiry-ordered read sees the same expiry values as the expired-shift: findTimeRangeBounds realises the half-open window [from,to) on both directions and leaves a side open when its bound is absent, so a record whose expiry lies before 1970 (non-zero, in the past: expired) is not dropped from a read that gives only an upper bound (shared with C07.window)", 4)
 	windowRule(c, rWin)
+	rPs := c.Rule("C30.persist", "a change of the expiry - setting, sliding and clearing alike - reaches the file: every record method that assigns the expiry attribute sets one of the change flags SaveFunction tests on every path through the assignment, so a cleared expiry does not come back after a reload and make the record expire again (shared with C05.dirtyflag, restricted to the expiry attribute)", 1)
+	dirtyFlagRule(c, rPs, "ExpirationTime")
+
 	rP := c.Rule("C30.predicate", "an 'is expired' decision is true exactly when expiry != 0 and expiry < now (5 abstract order cases per site, pre-epoch included)", 20)
 	// (a) treasure.IsExpired: simulate the function
 	{
